@@ -299,6 +299,47 @@ def read_constants(wntr):
     return hw, pc, dict(f2=f2, df2=df2), tol
 
 
+def _find(tree, pred):
+    """first sub-tree (pre-order) satisfying pred"""
+    if pred(tree):
+        return tree
+    tag = tree[0]
+    kids = []
+    if tag == "bin":
+        kids = [tree[2], tree[3]]
+    elif tag == "un":
+        kids = [tree[2]]
+    elif tag == "ifElse":
+        kids = list(tree[1:])
+    elif tag == "ineq":
+        kids = [tree[1]]
+    for k in kids:
+        r = _find(k, pred)
+        if r is not None:
+            return r
+    return None
+
+
+def read_row_literals(lrows_default, wn):
+    """the Python float literals written inside constraint.py itself, read off the rows the code built:
+    `eps` and the exponent of `k**0.5` in the default Hazen-Williams row, `9.81 * 1000.0` in the power-pump row"""
+    eps = half = gamma = None
+    for ln, t in lrows_default:
+        link = wn.get_link(ln)
+        if link.link_type == "Pipe" and eps is None:
+            hit = _find(t, lambda x: x[0] == "bin" and x[1] == "mul" and x[2][0] == "const" and x[3][0] == "bin" and x[3][1] == "pow"
+                        and x[3][2] == ("param", "hw_resistance[%s]" % ln) and x[3][3][0] == "const")
+            if hit is not None:
+                eps, half = hit[2][1], hit[3][3][1]
+        if link.link_type == "Pump" and link.pump_type == "POWER" and gamma is None:
+            hit = _find(t, lambda x: x[0] == "bin" and x[1] == "mul" and x[3][0] == "const" and x[2][0] == "bin" and x[2][1] == "mul")
+            if hit is not None:
+                gamma = hit[3][1]
+    if eps is None or gamma is None:
+        raise BrokenTie("cannot read the literals eps / k**0.5 / 9.81*1000.0 off the default Hazen-Williams and power-pump rows")
+    return dict(eps=eps, half=half, gammaW=gamma)
+
+
 # ----------------------------------------------------------------------------- Lean text
 
 
@@ -351,7 +392,7 @@ def gen_c01(wntr):
         out.append("]")
         out.append("end %s" % mode)
         out.append("")
-        info[mode] = dict(rows=len(mbrows), vars=len(vs), params=len(ps))
+        info[mode] = dict(rows=len(mbrows), vars=len(vs), params=len(ps), names=dict(vars=vs, params=ps, rows=[jn for jn, _ in mbrows]))
     out.append("end Wntr.Gen.RowsC01")
     return "\n".join(out) + "\n", info
 
@@ -391,12 +432,20 @@ def gen_c02(wntr):
         out.append("def %s : Rat := %s" % (k, rat(v)))
     out.append("")
     info = {}
+    names = {}
+    lit = None
     stmap = {int(LinkStatus.Closed): ".closed", int(LinkStatus.Open): ".opened", int(LinkStatus.Active): ".active"}
     for approx in ("default", "piecewise"):
         wn = build_zoo(wntr, "DD" if approx == "default" else "PDD")
         _, lrows, m = model_rows(wntr, wn, approx)
         vs, ps, idx = _index([t for _, t in lrows])
         ns = approx.capitalize()
+        names[approx] = dict(vars=vs, params=ps, rows=[ln for ln, _ in lrows])
+        if approx == "default":
+            lit = read_row_literals(lrows, wn)
+            out.append("/-- float literals written inside constraint.py (read off the default Hazen-Williams and power-pump rows) -/")
+            out.append("def lit : RowLits := { " + ", ".join("%s := %s" % (k, rat(v)) for k, v in lit.items()) + " }")
+            out.append("")
         out.append("namespace %s" % ns)
         out.append("def varNames : List String := " + _strlist(vs))
         out.append("def paramNames : List String := " + _strlist(ps))
@@ -451,7 +500,7 @@ def gen_c02(wntr):
             out.append("def fit%d%s : Expr := %s" % (npts, lab, amldump.tree_to_lean(t, idx)))
     out.append("")
     out.append("end Wntr.Gen.RowsC02")
-    return "\n".join(out) + "\n", dict(hist=info, hw=hw, pc=pc, tol=tol, spl=spl)
+    return "\n".join(out) + "\n", dict(hist=info, hw=hw, pc=pc, tol=tol, spl=spl, names=names, lit=lit)
 
 
 def run(ctx=None):
